@@ -3,6 +3,7 @@ package engb
 import (
 	"encoding/json"
 	"fmt"
+	"os"
 	"path/filepath"
 	"strings"
 	"sync"
@@ -37,7 +38,7 @@ var schemaErrB error
 func validateB(name string, body []byte) string {
 	schemaOnceB.Do(func() {
 		for _, n := range []string{"http-batch-request-schema.json", "http-lock-create-request-schema.json", "http-lock-delete-request-schema.json"} {
-			sc, err := gojsonschema.NewSchema(gojsonschema.NewReferenceLoader("file://" + filepath.Join("/repo/docs/api/schemas", n)))
+			sc, err := gojsonschema.NewSchema(gojsonschema.NewReferenceLoader("file://" + filepath.Join(schemaDirB(), n)))
 			if err != nil {
 				schemaErrB = fmt.Errorf("%s: %v", n, err)
 				return
@@ -160,4 +161,11 @@ func monitorB(c *Ctx) {
 			return
 		}
 	}
+}
+
+func schemaDirB() string {
+	if d := os.Getenv("VERIF_SCHEMA_DIR"); d != "" {
+		return d
+	}
+	return "/repo/docs/api/schemas"
 }
